@@ -235,7 +235,10 @@ BASE_W['del'] = 18
 
 def prof_base(rng, **kw):
     p = dict(keys=rng.choice([0, 1]), times=rng.choice([0, 1]), weights=dict(BASE_W),
-             time_mode=rng.choice(['mono', 'mono', 'rand']), versions=[2])
+             time_mode=rng.choice(['mono', 'mono', 'rand']),
+             # both formats are live code: a fifth of the profiles mix them, a fifth write V1 only (no file headers:
+             # an empty segment is a pair of zero-length files)
+             versions=rng.choice([[2], [2], [2], [1, 2], [1]]))
     p.update(kw)
     return p
 
@@ -343,7 +346,7 @@ def cfg_c15(rng):
 def cfg_c16(rng):
     # half of the cases add a pair of distinct keys with the same FNV-1a-64 hash (the hash of the key index)
     p = prof_base(rng, time_mode=rng.choice(['mono', 'mono', 'rand']),
-                  keyset=['-', '61', '62', '6100', '00'] + (list(rng.choice(gens.COLLISIONS)) if rng.random() < 0.5 else []),
+                  keyset=['-', '=', '61', '62', '6100', '00'] + (list(rng.choice(gens.COLLISIONS)) if rng.random() < 0.5 else []),
                   p_tomb=0.35)
     p['weights'] = w(compact=30, reopen=6)
     p['weights']['del'] = 6
@@ -373,7 +376,7 @@ def probes_c11(sh, rng):
 def probes_c17(sh, rng):
     return ['probe scan', 'next', 'stat', 'disksize', 'probe get 1'] + \
            (['probe times %d %d' % (min(sh.times.values()) - 1, max(sh.times.values()) + 1)] if sh.times else []) + \
-           (['probe keys -,61,62,6100'] if rng.random() < 0.4 else [])
+           (['probe keys -,=,61,62,6100'] if rng.random() < 0.4 else [])
 
 
 def probes_c15(sh, rng):
@@ -381,7 +384,7 @@ def probes_c15(sh, rng):
 
 
 def probes_c16(sh, rng):
-    return ['probe scan', 'probe keys -,61,62,6100,00,' + ','.join(k for pr in gens.COLLISIONS for k in pr)]
+    return ['probe scan', 'probe keys -,=,61,62,6100,00,' + ','.join(k for pr in gens.COLLISIONS for k in pr)]
 
 
 def cfg_c20(rng):
